@@ -69,7 +69,7 @@ def gen_ids(seed=None, n=None):
 
         t()
         ids = []
-        for i, spec in enumerate(got[:n]):
+        for i, spec in enumerate(got[:n] + gen_font.pinned_specs(seed)):
             fid = "gen:%d:%d" % (seed, i)
             _GEN_SPECS.setdefault(fid, spec)
             ids.append(fid)
